@@ -23,8 +23,8 @@ CONFIG = dict(
                  "for timestamps within +-2^55 s)",
                  "PeersNum is never negative (it is a count)"],
     units=[
-        dict(test="TestC21SyncedToEmit", quick=100000, thorough=16000000, shards=16),
-        dict(test="TestC21ParallelInstance", quick=100000, thorough=16000000, shards=16),
+        dict(test="TestC21SyncedToEmit", quick=100000, thorough=12000000, shards=16),
+        dict(test="TestC21ParallelInstance", quick=100000, thorough=4000000, shards=16),
         dict(test="TestC21Regression", kind="plain"),
     ],
 )
